@@ -343,7 +343,9 @@ class ClientWebSocketResponse(Generic[_DecodeText]):
             self._response.close()
             return True
 
-        if self._close_code:
+        # The peer's CLOSE was already received (its status code may be
+        # absent, i.e. 0) or the connection is already lost.
+        if self._close_code is not None:
             self._response.close()
             return True
 
@@ -414,7 +416,7 @@ class ClientWebSocketResponse(Generic[_DecodeText]):
                     if self._close_wait:
                         set_result(self._close_wait, None)
             except (asyncio.CancelledError, asyncio.TimeoutError):
-                self._close_code = WSCloseCode.ABNORMAL_CLOSURE
+                # The connection stays open and usable: no close code yet.
                 raise
             except EofStream:
                 self._close_code = WSCloseCode.OK
